@@ -56,6 +56,7 @@ type PESHdr struct {
 	Copyright  bool
 	Original   bool
 	PTS, DTS   *uint64 // DTS only with PTS
+	Ind01      bool    // PTS_DTS_flags = '01' (forbidden value: no timestamp field follows); only without PTS
 	ESCR       *PCR
 	ESRate     *uint32
 	Trick      *Trick
@@ -123,6 +124,9 @@ func (h *PESHdr) OptHeader() []byte {
 	w := &W{}
 	w.U(0b10, 2).U(uint64(h.Scrambling), 2).B(h.Priority).B(h.Alignment).B(h.Copyright).B(h.Original)
 	ind := uint64(0)
+	if h.Ind01 && h.PTS == nil {
+		ind = 1
+	}
 	if h.PTS != nil {
 		ind = 2
 		if h.DTS != nil {
